@@ -35,6 +35,11 @@ NAMES = [
     "canary_imported.ListSub", "canary_imported.INSTANCE", "canary_imported.Obj.method", "canary_imported.WithProperty.value",
     "canary_imported", "canary_imported.missing",
     "canary_imported.GENLIKE", "canary_imported.ITERLIKE", "canary_imported.CALLABLE", "canary_imported.CONTEXT", "canary_imported.NATIVE_GEN",
+    # module-level mutable containers and registry-like instances of container subclasses (a name must hand out the attribute itself)
+    "canary_imported.DICT", "canary_imported.SET", "canary_imported.BYTEARRAY", "canary_imported.REGISTRY", "canary_imported.TABLE",
+    "canary_imported.SETSUB", "sys.path", "sys.argv",
+    # classes an application derived from its YAMLObject classes (imported, never constructible through python/object* tags)
+    "canary_app.Base", "canary_app.Derived", "canary_app.DerivedWithState",
     "canary_unimported.func", "canary_unimported", "canary_unimported.VALUE",
     "canary_pkg.sub.attr", "canary_pkg.sub.func", "canary_pkg.sub", "canary_pkg",
     "os.system", "os.getcwd", "os.path.join", "os.environ", "os", "os.path", "subprocess.Popen", "subprocess.check_output",
@@ -60,7 +65,7 @@ WATCH = {n for n in NAMES if n.startswith("canary_imported.")} | {
 HOT_NAMES = ["canary_unimported.func", "canary_unimported.VALUE", "canary_unimported", "canary_pkg.sub.attr", "canary_pkg.sub.func",
              "canary_pkg.sub", "canary_pkg", "canary_imported.func", "canary_imported.Obj", "canary_imported.Plain",
              "canary_imported.ListSub", "os.system", "antigravity.fly", "this.s", "canary_imported.GENLIKE", "canary_imported.ITERLIKE",
-             "canary_imported.CALLABLE", "canary_imported.Settings.instance", "canary_imported.Settings.current", "canary_imported.Obj.method",
+             "canary_app.Derived", "canary_app.DerivedWithState", "canary_imported.CALLABLE", "canary_imported.REGISTRY", "canary_imported.TABLE", "canary_imported.SETSUB", "canary_imported.Settings.instance", "canary_imported.Settings.current", "canary_imported.Obj.method",
              "collections.OrderedDict.fromkeys", "%(x)s.%(y)s", "canary_imported.%s"]
 
 TAG_CH = set("ABCDEFGHIJKLMNOPQRSTUVWXYZabcdefghijklmnopqrstuvwxyz0123456789-;/?:@&=+$_.~*'()")
@@ -322,6 +327,7 @@ def install():
     if CANARY_DIR not in sys.path:
         sys.path.append(CANARY_DIR)
     import canary_imported  # noqa: F401
+    import canary_app  # noqa: F401  (an application's YAMLObject classes and their untagged subclasses; registers '!c04-base' on the default loaders)
     import subprocess, pickle, shutil, ctypes, code, types, importlib, collections, datetime, re  # noqa: F401,E401
     sys.addaudithook(_audit)
     _state["installed"] = True
